@@ -17,7 +17,8 @@ RULE = ('geometry recipe (gens/geo.py: rectangular with spacings 1..500 m, BFS p
         'below / above the column surface, above the model, below it) against interval arithmetic; 2..4 lines (between interior points of '
         'two drawn columns, between two points of the enlarged box, and from 1000..10000 column sizes away through the smallest '
         'column) against per-column parametric clipping. Non-trivial = a point with a wrong guess or an aid other than none, or a line '
-        'crossing >= 3 columns; distinct = case JSON.')
+        'crossing >= 3 columns; distinct = case JSON.'
+        " Also: non-convex bounds polygons (a U shape around the mesh; the geometry's own boundary polygon on meshes up to 60 columns).")
 ASSUMPTIONS = [
     'points closer than 1e-6 x (largest column diameter) + 1e-9 |coordinate| to any column side (or to the boundary of a bounds polygon) are not judged (counted)',
     'elevations closer than 1e-6 (relative to the model height, at least 1e-9) to a layer boundary or the column surface are not generated',
@@ -112,6 +113,24 @@ def small_column_case(draw):
             'lines': lines, 'aid': draw(aid_spec()), 'warm': draw(st.booleans())}
 
 
+@st.composite
+def lab_scale_case(draw):
+    """a laboratory-scale model: columns of millimetres to centimetres, turned by some angle, crossed by many lines (the
+    corner clips of such columns are micrometres to millimetres long)"""
+    nx, ny = draw(st.integers(4, 12)), draw(st.integers(4, 10))
+    d = draw(st.sampled_from([0.005, 0.01, 0.02, 0.05]))
+    vary = draw(st.booleans())
+    dx = [d * (draw(st.sampled_from([1.0, 1.0, 0.5, 2.0])) if vary else 1.0) for _ in range(nx)]
+    dy = [d * (draw(st.sampled_from([1.0, 1.0, 0.5, 2.0])) if vary else 1.0) for _ in range(ny)]
+    rc = {'convention': 0, 'base': {'kind': 'rect', 'dx': dx, 'dy': dy, 'dz': [0.1, 0.2],
+                                    'origin': draw(st.sampled_from([[0., 0., 0.], [0.3, -0.2, 0.5]]))}, 'atmos': 2,
+          'ops': [{'op': 'rotate', 'angle': draw(st.sampled_from([30.0, 45.0, 17.5, 61.3, 0.0]))}], 'surfaces': [], 'det': True}
+    f = lambda: draw(st.integers(-100, 1100)) / 1000.0
+    lines = [{'k': 'box', 'p': [f(), f()], 'q': [f(), f()]} for _ in range(draw(st.integers(4, 8)))]
+    return {'rc': rc, 'pts': draw(st.lists(point_spec(), min_size=2, max_size=4)), 'zs': draw(st.lists(z_spec(), min_size=1, max_size=2)),
+            'lines': lines, 'aid': draw(aid_spec()), 'warm': False}
+
+
 def shipped_cases(tier):
     q = tier == 'quick'
     out = []
@@ -135,7 +154,8 @@ def searches(tier):
     q = tier == 'quick'
     return [Search('shipped', 'enum', lambda: shipped_cases(tier), shards=16),
             Search('generated', 'hyp', lambda: case_strategy(q), n=3200 if q else 40000, shards=16),
-            Search('small-column', 'hyp', small_column_case, n=960 if q else 12000, shards=16)]
+            Search('small-column', 'hyp', small_column_case, n=960 if q else 12000, shards=16),
+            Search('lab-scale', 'hyp', lab_scale_case, n=960 if q else 12000, shards=16)]
 
 
 # ---------------------------------------------------------------------- oracle
